@@ -4,11 +4,14 @@ import (
 	"crypto/ed25519"
 	"encoding/json"
 	"fmt"
+	"os"
 	"sort"
 	"time"
 
 	"github.com/lidofinance/dc4bc/client/api/dto"
+	"github.com/lidofinance/dc4bc/client/modules/state"
 	"github.com/lidofinance/dc4bc/storage"
+	"github.com/lidofinance/dc4bc/storage/file_storage"
 
 	"verif/mc/kit"
 	"verif/mc/world"
@@ -349,6 +352,68 @@ func c08(tier string, args []string) int {
 			lab.Node.Stop()
 			r.Sample(map[string]interface{}{"log": name, "view": v, "messages": len(L), "positions": len(S)})
 		}
+	}
+
+	// ---- (f) conformance of the harness substitutes: the same log through a node over the REAL
+	// LevelDBState and the REAL FileStorage must end in the same stored state as the node over
+	// the in-memory state and board that all explorations use
+	for _, name := range []string{"honest", "with-junk"} {
+		L := logs[name]
+		v := 0
+		dir := world.NewDir("c08real")
+		ls, err := state.NewLevelDBState(dir+"/state", world.Topic)
+		if err != nil {
+			r.Infra("leveldb state: %v", err)
+		}
+		fsBoard, err := file_storage.NewFileStorage(dir+"/board.log", dir+"/board.lock")
+		if err != nil {
+			r.Infra("file storage: %v", err)
+		}
+		writer, _ := file_storage.NewFileStorage(dir+"/board.log", dir+"/board.lock")
+		realNode, err := world.NewNodeOverStorage(rec.W.Nodes[v].Name, rec.W.Nodes[v].KeyPair, ls, fsBoard)
+		if err != nil {
+			r.Infra("node: %v", err)
+		}
+		lab, _ := NewLabFor(rec.W, v)
+		S := chain(r, lab, L)
+		lab.Node.Stop()
+		for k := range L {
+			if err := writer.Send(L[k]); err != nil {
+				r.Infra("file board send: %v", err)
+			}
+			if k%3 == 2 || k == len(L)-1 {
+				if err := realNode.TickPlain(); err != nil {
+					r.Infra("poll loop: %v", err)
+				}
+			}
+		}
+		real := world.Snapshot{}
+		for key := range S[len(L)] {
+			bz, _ := ls.Get(key)
+			if bz != nil {
+				real[key] = string(bz)
+			}
+		}
+		off, _ := ls.LoadOffset()
+		transitions += len(L)
+		validated++
+		// (the node re-broadcasts the signatures it reconstructs while replaying; on the file
+		// board it then consumes its own broadcasts too, so its offset may exceed the log length)
+		if int(off) < len(L) {
+			r.Violation("C08/substitute-conformance/offset", fmt.Sprintf("log %s: the node over LevelDBState+FileStorage ends at offset %d of %d", name, off, len(L)), nil)
+		}
+		// message ids differ (the file board draws uuids), nothing stored depends on them
+		if publicProjection(real, "") != publicProjection(S[len(L)], "") {
+			r.Violation("C08/substitute-conformance/state", fmt.Sprintf("log %s: the node over the real LevelDBState and FileStorage ends in a different public state than the node over the in-memory substitutes", name), nil)
+		}
+		mp, _ := S[len(L)].RawOps()
+		rp, _ := real.RawOps()
+		if len(mp) != len(rp) {
+			r.Violation("C08/substitute-conformance/operations", fmt.Sprintf("log %s: %d pending operations over the real stores, %d over the substitutes", name, len(rp), len(mp)), nil)
+		}
+		realNode.Stop()
+		_ = ls.VerifClose()
+		os.RemoveAll(dir)
 	}
 
 	// ---- (c) two rounds on one board: every interleaving, as a grid search
